@@ -559,7 +559,7 @@ fn eval(a: &[String]) -> String {
       use tyme4rs::tyme::lunar::{LunarYear, LunarDay};
       use tyme4rs::tyme::sixtycycle::SixtyCycleYear;
       let mut out = "NONE".to_string();
-      'scan: for y in 2019isize..=2026 {
+      'scan: for y in (2019isize..=2026).chain([1574, 3358, 1575].into_iter()) {
         let ly = LunarYear::from_year(y);
         let ms0 = ly.get_months();
         let sum: usize = ms0.iter().map(|m| m.get_day_count()).sum();
@@ -589,6 +589,7 @@ fn eval(a: &[String]) -> String {
             out = format!("double-hours of sexagenary day {}-{}-{}", sd.get_year(), sd.get_month(), sd.get_day()); break 'scan;
           }
         }
+        if y < 1600 { continue; }      // Julian-era years: the day -> term lookup has a known defect there (C06), the lunar-year checks above still apply
         let ms = SixtyCycleYear::from_year(y).get_months();
         // the double hours of every Jie day (the month / year pillars turn inside such a day)
         for k in 0..12isize {
@@ -860,6 +861,9 @@ fn eval(a: &[String]) -> String {
       for y in 2003isize..=2005 { for k in 0..12isize {
         let z = SolarTerm::from_index(y, 1 + 2 * k).get_julian_day().get_solar_time();
         if z.get_hour() >= 5 { ts.push(z.next(-4 * 3600 - 600)); }
+        // and noon of the last day of the month this Jie opens (29..31 days after the Jie day)
+        let last = SolarTerm::from_index(y, 3 + 2 * k).get_julian_day().get_solar_day().next(-1);
+        ts.push(SolarTime::from_ymd_hms(last.get_year(), last.get_month(), last.get_day(), 12, 20, 0));
       } }
       'scan: for (k, t) in ts.iter().enumerate() {
         let t = *t;
